@@ -9,7 +9,7 @@ CONSTANTS
   Acts = {"Write", "Chmod", "Delete", "Mkfifo", "FileToDir", "DirToFile", "RmTree", "Snapshot", "CheckOut"}
   EditPaths <- InsideIgnoredPaths
   Contents = {1, 2}
-  SymTargets = {"out", "f"}
+  SymTargets = {"out", "f", "out/x"}
   RootIgnore = {1, 2, 3, 4, 7}
   DirIgnore = {3, 5, 6}
   TreeIds = {9, 11, 12}
